@@ -36,4 +36,14 @@ def setNat [DecidableEq κ] (m : List (κ × Nat)) (x : κ) (n : Nat) : List (κ
   if n = 0 then erase m x else insert m x n
 
 end AL
+
+/-- insertion sort on naturals (structural, so that concrete instances reduce in the kernel) -/
+def insertLe (x : Nat) : List Nat → List Nat
+  | [] => [x]
+  | y :: ys => if x ≤ y then x :: y :: ys else y :: insertLe x ys
+
+def isort : List Nat → List Nat
+  | [] => []
+  | x :: xs => insertLe x (isort xs)
+
 end Mainchain
